@@ -273,6 +273,10 @@ func GetMethodReturnTypes(m *types.Func) (*types.Tuple, bool) {
 // ParseGetterReturnTypes returns the return types of the given method.
 func ParseGetterReturnTypes(m *types.Func) (ret types.Type, retError, ok bool) {
 	sig := m.Type().(*types.Signature)
+	if sig.Params().Len() != 0 {
+		// A getter is called without arguments.
+		return
+	}
 	num := sig.Results().Len()
 	if num == 0 || 2 < num {
 		return
